@@ -379,6 +379,9 @@ def run(ctx):
     ]
     for f in sorted((VERIF / "corpus" / "C13").glob("*.json")):
         c = json.loads(f.read_text())
+        if "tree_ops" in c:
+            tree_case(ctx, c["programs"], label=f.name, script=c["tree_ops"])
+            continue
         one_case(ctx, c["programs"], label=f.name, script=c.get("script"))
     for _ in range(ctx.n(140, 2500)):
         progs = [gen_comp.gen_program(ctx.rng, allow_pow=False, allow_array=False), gen_comp.gen_program(ctx.rng, allow_pow=False, allow_array=False)]
